@@ -17,7 +17,7 @@
      the map key -> []any that concatMaps collects the values in                          list (string * list cval)
      reflect.Type of a dynamic value (nil for a nil interface)                            option cty
    Definitions only; the agreement proofs are in Proofs/GenAgreeConcatCode.v. *)
-From Eino Require Import Base.Util Model.ConcatTable Model.Concat.
+From Eino Require Import Base.Util Model.ConcatTable Model.Concat Model.ConcatMsg Model.ConcatStream.
 
 (* ---------------------------------------------------------------- control *)
 
@@ -165,3 +165,84 @@ Definition r_some (v : cval) : option cval := Some v.
 (* *a < *b on two *int: a nil dereference panics (None) *)
 Definition oz_cmp (f : Z -> Z -> bool) (a b : option Z) : option bool :=
   match a, b with Some x, Some y => Some (f x y) | _, _ => None end.
+
+(* ---------------------------------------------------------------- streams (the drain loops) *)
+
+(* for { ... break ... }: the body falls through to the next round (inl), leaves the loop (inr) or
+   returns; [fuel] bounds the rounds (a loop that does not leave within it never ends: Panic) *)
+Fixpoint c_loop {S R} (fuel : nat) (body : S -> ctl (S + S) R) (s : S) : ctl S R :=
+  match fuel with
+  | O => Return Panic
+  | Datatypes.S n =>
+      match body s with
+      | Next (inl s') => c_loop n body s'
+      | Next (inr s') => Next s'
+      | Return r => Return r
+      end
+  end.
+
+(* the error result of StreamReader.Recv *)
+Inductive rerr : Type := ENone | EEof | EOther.
+Definition rerr_is_nil (e : rerr) : bool := match e with ENone => true | _ => false end.
+Definition rerr_is_eof (e : rerr) : bool := match e with EEof => true | _ => false end.
+
+(* sr.Recv() on a reader that still has the items [s] to deliver (then io.EOF, for ever):
+   the chunk (the zero value beside an error), the error, what remains *)
+Definition r_recv {X} (zero : X) (s : list (sitem X)) : X * rerr * list (sitem X) :=
+  match s with
+  | [] => (zero, EEof, [])
+  | SErr :: s' => (zero, EOther, s')
+  | SVal a :: s' => (a, ENone, s')
+  end.
+
+(* return v, err  where err is (a wrapping of) the error of a Recv *)
+Definition r_ret {X} (v : X) (e : rerr) : res X :=
+  match e with ENone => Ok v | _ => Err E_READ end.
+
+Definition g_nth {X} (l : list X) (i : nat) : res X :=
+  match nth_error l i with Some x => Ok x | None => Panic end.
+
+(* ---------------------------------------------------------------- tool calls (schema.concatToolCalls) *)
+
+(* ToolCall{Index: &i} *)
+Definition tc_new (i : option Z) : toolcall := mkTC i EmptyString EmptyString EmptyString EmptyString 0%N.
+Definition tc_set_id (c : toolcall) (s : string) : toolcall := mkTC (tc_idx c) s (tc_type c) (tc_name c) (tc_args c) (tc_extra c).
+Definition tc_set_type (c : toolcall) (s : string) : toolcall := mkTC (tc_idx c) (tc_id c) s (tc_name c) (tc_args c) (tc_extra c).
+Definition tc_set_name (c : toolcall) (s : string) : toolcall := mkTC (tc_idx c) (tc_id c) (tc_type c) s (tc_args c) (tc_extra c).
+Definition tc_set_args (c : toolcall) (s : string) : toolcall := mkTC (tc_idx c) (tc_id c) (tc_type c) (tc_name c) s (tc_extra c).
+
+(* map[int][]int: index -> positions of its fragments; m[k] of a missing key is nil *)
+Fixpoint zm_get (k : Z) (m : list (Z * list nat)) : list nat :=
+  match m with
+  | [] => []
+  | (k', v) :: m' => if Z.eqb k k' then v else zm_get k m'
+  end.
+Fixpoint zm_put (k : Z) (v : list nat) (m : list (Z * list nat)) : list (Z * list nat) :=
+  match m with
+  | [] => [(k, v)]
+  | (k', v') :: m' => if Z.eqb k k' then (k, v) :: m' else (k', v') :: zm_put k v m'
+  end.
+
+(* *p on a *int *)
+Definition r_deref (o : option Z) : res Z := match o with Some z => Ok z | None => Panic end.
+
+(* sort.SliceStable with a comparator that may panic: stable insertion sort (every stable sort
+   computes this list); sort.Slice: SOME sort that is not stable (equal elements reversed) *)
+Fixpoint sinsert_o (less : toolcall -> toolcall -> option bool) (x : toolcall) (l : list toolcall) : res (list toolcall) :=
+  match l with
+  | [] => Ok [x]
+  | y :: l' =>
+      match less y x with
+      | None => Panic
+      | Some true => res_map (cons y) (sinsert_o less x l')
+      | Some false => Ok (x :: y :: l')
+      end
+  end.
+Fixpoint ssort_o (less : toolcall -> toolcall -> option bool) (l : list toolcall) : res (list toolcall) :=
+  match l with
+  | [] => Ok []
+  | x :: l' => res_bind (ssort_o less l') (sinsert_o less x)
+  end.
+Definition r_sort_stable := ssort_o.
+Definition r_sort_unstable (less : toolcall -> toolcall -> option bool) (l : list toolcall) : res (list toolcall) :=
+  ssort_o less (rev l).
